@@ -7,11 +7,14 @@
                                      the concatenated stream: the flush never fires inside a sequence
     split_sequence_never_flushed     … so no lone Escape / no rest-of-sequence-as-text appears
     timing_and_chunking_independent  two such schedules with the same bytes deliver the same keys
+    gen_ttimeoutlen_default / split_sequence_never_flushed_default
+                                     the same for the DEFAULT ttimeoutlen regenerated from the tree (pinned)
     stale_timer_breaks_sequence      negative witness: a timer that is not restarted by every read
                                      (seeded/C17-c) flushes a sequence split over two reads that are
                                      closer than `ttimeoutlen`
 -/
 import Ptk.Model.C17Flush
+import Ptk.Gen.C17
 namespace Ptk.C17.Flush
 open Ptk.C17
 
@@ -155,5 +158,44 @@ theorem stale_timer_breaks_sequence :
       [.key (.other 97), .key (.other 98), .esc, .junk 5, .key (.other 88)] := by decide
 
 end examples
+
+/-! ### the DEFAULT timers of the current tree (regenerated from `Application()` on every run)
+
+  The theorems above hold for every `ttimeoutlen`; what they promise in practice depends on its
+  value: a terminal (or a pipe writer) that pauses inside an escape sequence for less than the
+  default is safe.  The documented defaults are pinned here — a change of the default breaks the
+  build at the pin and is then shown on the real code by the real-time cases of the harness. -/
+
+/-- pin: `Application().ttimeoutlen == 0.5` seconds (Vim's `ttimeoutlen`) -/
+theorem gen_ttimeoutlen_default : Gen.C17.ttimeoutlenMs = 500 := by decide
+
+/-- pin: `Application().timeoutlen == 1.0` second (Vim's `timeoutlen`, the key processor's flush) -/
+theorem gen_timeoutlen_default : Gen.C17.timeoutlenMs = 1000 := by decide
+
+/-- **With the default `ttimeoutlen` of the current tree, a sequence whose parts arrive less than
+    that default after the previous read is never flushed in between** (time in milliseconds). -/
+theorem split_sequence_never_flushed_default (evs : List Ev)
+    (hs : ((feed none (pieces evs)).1.all Out.clean) = true)
+    (ht : timely (P.init Gen.C17.ttimeoutlenMs) evs = true) :
+    ((run (P.init Gen.C17.ttimeoutlenMs) evs).out.all Out.clean) = true :=
+  split_sequence_never_flushed Gen.C17.ttimeoutlenMs evs hs ht
+
+/-- a 150 ms pause inside Left (`ESC` | `[D`) and inside a cursor-position report, the loop looking at
+    its timers every 50 ms: what the real-time cases of the harness do -/
+def exPause : List Ev :=
+  [.read 0 [.key (.other 97), .key (.other 98), .head 1114114], .timer 50, .timer 100,
+   .read 150 [.tail 1114114, .key (.other 99), .key .accept], .timer 700]
+
+-- … is timely under the default, and delivers the keys of the stream
+example : timely (P.init Gen.C17.ttimeoutlenMs) exPause = true := by decide
+example : (run (P.init Gen.C17.ttimeoutlenMs) exPause).out =
+    [.key (.other 97), .key (.other 98), .key (.other 1114114), .key (.other 99), .key .accept] := by decide
+
+/-- negative witness (seeded/C17-l): with a `ttimeoutlen` of 50 ms the same delivery is not timely
+    any more, the flush fires inside the sequence: a lone Escape and the rest of the sequence as text -/
+theorem short_ttimeoutlen_breaks_paused_sequence :
+    timely (P.init 50) exPause = false ∧
+    (run (P.init 50) exPause).out =
+      [.key (.other 97), .key (.other 98), .esc, .junk 1114114, .key (.other 99), .key .accept] := by decide
 
 end Ptk.C17.Flush
